@@ -40,7 +40,8 @@ impl FixedBitSet {
         ensures final(self)@ == old(self)@.update(bit as int, enabled),
     { unimplemented!() }
 
-    // std::ops::Index<usize>: panics if bit >= len
+    // std::ops::Index<usize>.  fixedbitset 0.5 returns `false` for bit >= len instead of panicking; the stub is
+    // deliberately STRICTER (an out-of-range read is reported), because every such read in pdatastructs is a bug
     #[verifier::external_body]
     pub fn index(&self, bit: usize) -> (r: &bool)
         requires bit < self@.len(),
